@@ -114,6 +114,7 @@ var props = map[string]*Prop{
 		Assumptions: []string{"gob and omitempty cannot distinguish nil from empty slices nor a nil from a zero control-flow block: compared modulo that", "a truncated file that is migrated without error is accepted only if the store then holds the last-wins set of the WHOLE untruncated file (losing only trailing brackets is not a short success)"},
 		Bounds:      map[string]string{"quick": "lists <=3, one big list (1001), histories <=3", "thorough": "lists <=3, big lists 999/1000/1001/2001, histories <=3"},
 		Units: []Unit{
+			{Name: "cli-migrate-truncations", Pkg: "internal/cli", Test: "TestVerifC18Migrate", Shards: sh(16, 16), TimeoutS: sh(1200, 1200)},
 			{Name: "migrate-roundtrip", Pkg: "pkg/storage/pebbledb", Test: "TestVerifC18Migrate", Shards: sh(16, 16), TimeoutS: sh(900, 3600), DeadlineS: sh(400, 2400)},
 			{Name: "add-get-histories", Pkg: "pkg/storage/pebbledb", Test: "TestVerifC18AddGet", Shards: sh(8, 8), TimeoutS: sh(900, 3600)},
 			{Name: "save-crash-points", Pkg: "pkg/storage/jsondb", Test: "TestVerifC18SaveCrash", Tags: []string{"verif_vos"}, Shards: sh(1, 1),
